@@ -19,12 +19,22 @@ that receive every global they read as an argument.  Theorems:
                             process (arbitrary initial globals) that holds the same argument objects;
                             also the objects it leaves behind are the same.  `history_independent_nth`
                             is the same statement for the k-th output of a run.
-* `ledger_balanced_partial` — after freeing all live handles the ledger is empty, **provided no call hit
-                            the error path of `kalign_read_input` on which a format reader fails**;
-* `ledger_leak_on_reader_failure` — without that proviso the statement is false for the model, which here
-                            mirrors a defect of the C code (msa_io.c:170 `ERROR:` does not free the
-                            `in_buffer`; confirmed with LeakSanitizer on the input
-                            `ACGT\n>a\nACGT\n>b\nACGT\n`: 24 658 bytes in 1 032 blocks per failing call).
+* `ledger_invariant`      — after *any* history the ledger holds exactly the objects of the live handles:
+                            every call frees every temporary it allocates, on the success path and on
+                            every failure path (`kalign_read_input`: missing file, `fopen` failure, format
+                            reader failure, detector failure, merge failure, no sequences; `kalign_run`:
+                            input check, parameter failure; `kalign()`: every stage; write and compare
+                            failures) …
+* `ledger_balanced`       — … hence after freeing all live handles nothing remains allocated.  No hypothesis.
+* `read_call_balanced`, `read_nothing_keeps_msa` — the per-call facts about `kalign_read_input`.
+* history of this theorem: the ledger exposed two leaks of the C code, both confirmed with LeakSanitizer
+                            and since repaired in /repo.  (i) up to 4036b80/7d4bd68 the `ERROR:` path of
+                            `kalign_read_input` freed neither the `in_buffer` nor the stopwatch (input
+                            `ACGT\n>a\nACGT\n>b\nACGT\n`: 24 658 bytes per call); (ii) up to 4c3a0a7
+                            `read_file_stdin` lost the `in_buffer` it had allocated when `fopen` failed on
+                            an existing file (mode-000 file / EMFILE: 24 592 bytes per call).
+                            `read_call_leaked_before_4c3a0a7` keeps (ii) as a statement about the
+                            pre-repair call `readInputPre4c3a0a7`.
 * `writable_globals`      — frame obligation, re-checked against `nm` of the library objects on every run.
 
 Level: **S** about the state-machine model.  (a) is close to true by construction in a functional model;
@@ -209,36 +219,20 @@ theorem freeAll_empties (s : State P) (hs : List Nat) (hh : s.handles = hs) (hnd
       simpa using (fun e : a = h => hnt (e ▸ ha))
     exact ih _ hstep (List.nodup_cons.1 hnd).2
 
-/-
-FULL STATEMENT (false for the model, and — by the LeakSanitizer run quoted above — for the code):
-
-  theorem ledger_balanced (g0 : Globals) (ops : List (Op P)) :
-      let s := after P (State.init P g0) ops
-      (after P s (freeAll P s.handles)).w.ledger = [] ∧ (after P s (freeAll P s.handles)).heap = []
-
-`ledger_balanced_partial` proves it under the explicit hypothesis `hclean` that no `read` of the history
-names a file on which a format reader fails; `ledger_leak_on_reader_failure` refutes it without.
--/
-
-/-- after any history without a reader failure, the ledger holds exactly the objects of the live
-handles (every call has freed each temporary it allocated, on success and on failure paths) … -/
-theorem ledger_invariant (g0 : Globals) (ops : List (Op P)) (hclean : ∀ op ∈ ops, op.clean = true) :
+/-- after any history (failing calls included) the ledger holds exactly the objects of the live handles … -/
+theorem ledger_invariant (g0 : Globals) (ops : List (Op P)) :
     let s := after P (State.init P g0) ops
     s.w.ledger = s.handles.map Blk.obj ∧ s.handles.Nodup :=
-  let hi := after_inv P _ ops (inv_init P g0) hclean
+  let hi := after_inv P _ ops (inv_init P g0)
   ⟨hi.ledger, hi.nodup⟩
 
-/-- … and once all of them are freed nothing remains allocated -/
-theorem ledger_balanced_partial (g0 : Globals) (ops : List (Op P)) (hclean : ∀ op ∈ ops, op.clean = true) :
+/-- … and once all of them are freed nothing the library allocated remains allocated -/
+theorem ledger_balanced (g0 : Globals) (ops : List (Op P)) :
     let s := after P (State.init P g0) ops
     (after P s (freeAll P s.handles)).w.ledger = [] ∧ (after P s (freeAll P s.handles)).heap = [] := by
   intro s
-  have hi : Inv P s := after_inv P _ ops (inv_init P g0) hclean
-  have hi' : Inv P (after P s (freeAll P s.handles)) :=
-    after_inv P s _ hi (fun op hop => by
-      simp only [freeAll, List.mem_map] at hop
-      obtain ⟨h, _, rfl⟩ := hop
-      rfl)
+  have hi : Inv P s := after_inv P _ ops (inv_init P g0)
+  have hi' : Inv P (after P s (freeAll P s.handles)) := after_inv P s _ hi
   have he := freeAll_empties P s s.handles rfl hi.nodup
   refine ⟨?_, he⟩
   have hnil : State.handles (after P s (freeAll P s.handles)) = [] := by
@@ -247,26 +241,66 @@ theorem ledger_balanced_partial (g0 : Globals) (ops : List (Op P)) (hclean : ∀
   rw [hi'.ledger, hnil]; rfl
 
 /-- variant: however the caller frees them — if no handle is live the ledger is empty -/
-theorem ledger_empty_of_no_handles (g0 : Globals) (ops : List (Op P)) (hclean : ∀ op ∈ ops, op.clean = true)
+theorem ledger_empty_of_no_handles (g0 : Globals) (ops : List (Op P))
     (hnone : (after P (State.init P g0) ops).heap = []) :
     (after P (State.init P g0) ops).w.ledger = [] := by
-  have hi := after_inv P _ ops (inv_init P g0) hclean
+  have hi := after_inv P _ ops (inv_init P g0)
   have hnil : State.handles (after P (State.init P g0) ops) = [] := by
     show List.map _ (after P (State.init P g0) ops).heap = []
     rw [hnone]; rfl
   rw [hi.ledger, hnil]; rfl
 
+/-- one `kalign_read_input` call, whatever fails, leaves the ledger as the caller's `*msa` dictates -/
+theorem read_call_balanced (h : Nat) (L : List Blk) (f : P.File) (cur : Option P.Msa) (w : World)
+    (hw : w.ledger = baseLedger P h L cur) :
+    (readInput P h f cur w).2.ledger = baseLedger P h L (readInput P h f cur w).1.2 :=
+  readInput_ledger P h L f cur w hw
+
+/-- an input from which nothing is read returns OK and leaves `*msa` untouched (7d4bd68) -/
+theorem read_nothing_keeps_msa (h : Nat) (f : P.File) (cur : Option P.Msa) (w : World)
+    (hf : P.parseFile f = .nothing) : (readInput P h f cur w).1 = (true, cur) := by
+  simp [readInput, hf]
+
+/-! ### historical counterexample (pre-repair code, not part of the model) -/
+
+/-- `kalign_read_input` as it was before /repo commit 4c3a0a7: identical, except that on a failing
+`fopen` the `in_buffer` allocated inside `read_file_stdin` was neither stored nor freed -/
+def readInputPre4c3a0a7 (h : Nat) (f : P.File) (cur : Option P.Msa) (w : World) : (Bool × Option P.Msa) × World :=
+  match P.parseFile f with
+  | .openFail => ((false, cur), ((w.alloc (.tmp "timer")).alloc (.tmp "in_buffer")).free (.tmp "timer"))
+  | _ => readInput P h f cur w
+
+/-- before the repair such a call left one block behind (contrast `read_call_balanced`) -/
+theorem read_call_leaked_before_4c3a0a7 (h : Nat) (L : List Blk) (f : P.File) (cur : Option P.Msa) (w : World)
+    (hf : P.parseFile f = .openFail) (hw : w.ledger = baseLedger P h L cur) :
+    (readInputPre4c3a0a7 P h f cur w).2.ledger =
+      Blk.tmp "in_buffer" :: baseLedger P h L (readInputPre4c3a0a7 P h f cur w).1.2 := by
+  simp [readInputPre4c3a0a7, hf, hw]
+
 /-! ## non-vacuity: a concrete instance and a concrete history -/
 
 section Examples
 
+/-- what an input file can be in the toy instance -/
+inductive ToyFile where
+  /-- a well-formed file with these sequences (`[]`: a recognised format without any sequence) -/
+  | ok (xs : List Nat)
+  | empty
+  /-- the format reader fails -/
+  | garbled
+  /-- the reader succeeds, a detector fails -/
+  | badLetters
+  | missing
+  /-- exists, cannot be opened -/
+  | unreadable
+
 /-- A toy instance in which every computation *does* look at the globals it is handed: the distance
 "matrix" is the team size, or 999 when the mask is not initialised; an alignment appends
-`[tasks, ap, threads]` to the sequence list.  A file is `none` (a format reader fails), `some []`
-(empty input) or `some xs`. -/
+`[tasks, ap, threads]` to the sequence list.  Two inputs can be merged when their first elements have
+the same parity ("alphabet"). -/
 @[reducible] def toy : Params where
   Msa := List Nat
-  File := Option (List Nat)
+  File := ToyFile
   Cfg := Nat × Nat
   Fmt := Nat
   Bytes := List Nat
@@ -277,11 +311,14 @@ section Examples
   Tasks := Nat
   Ap := Nat
   parseFile f := match f with
-    | none => .readerFail
-    | some [] => .nothing
-    | some xs => .seqs xs
-  mergeMsa a b := a ++ b
-  enough m := decide (2 ≤ m.length)
+    | .ok xs => .seqs xs
+    | .empty => .nothing
+    | .garbled => .readerFail
+    | .badLetters => .detectFail
+    | .missing => .missing
+    | .unreadable => .openFail
+  mergeMsa a b := if a.headD 0 % 2 = b.headD 0 % 2 then (a ++ b, true) else (a, false)
+  nonEmpty m := decide (1 ≤ m.length)
   threads c := max c.1 1
   prepare m := (m, decide (m.length < 100))
   distances _ mask th := if mask then th else 999
@@ -300,7 +337,7 @@ def g0 : Globals := ⟨16, false⟩
 /-- read two files into one msa; align with 4 threads; write; array API with 2 threads; realign the
 first object with 1 thread; a failing run (bad type); a failing write; compare; free both -/
 def hist : List (Op toy) :=
-  [ .read ([some [1, 2], some [], some [3]] : List (Option (List Nat))),
+  [ .read ([.ok [1, 2], .empty, .ok [3]] : List ToyFile),
     .run 0 ((4, 7) : Nat × Nat),
     .write 0 (1 : Nat),
     .kalign ([5, 6] : List Nat) ((2, 9) : Nat × Nat),
@@ -326,23 +363,40 @@ example :
     (step toy (freshWith toy ⟨64, false⟩ (after toy (State.init toy g0) (hist.take 4)) [0]) (.run 0 ((1, 7) : Nat × Nat))).2.lookup 0
       = (after toy (State.init toy g0) (hist.take 5)).lookup 0 := ⟨rfl, rfl⟩
 
-example : ∀ op ∈ hist, op.clean = true := by decide
-
 /-- ledger while two objects are live, and at the end -/
 example : (after toy (State.init toy g0) (hist.take 8)).w.ledger = [.obj 1, .obj 0] := by decide
 example : (after toy (State.init toy g0) hist).w.ledger = [] := by decide
 example : (after toy (State.init toy g0) hist).w.g = ⟨3, true⟩ := by decide
 
-/-- **the leak**: one `read` of a file on which the format reader fails; no handle is live afterwards,
-yet a block remains allocated.  (C: `kalign_read_input` jumps to `ERROR:` without `free_in_buffer(b)`.) -/
-theorem ledger_leak_on_reader_failure :
-    ∃ (P : Params) (g0 : Globals) (ops : List (Op P)),
-      let s := after P (State.init P g0) ops
-      s.heap = [] ∧ (after P s (freeAll P s.handles)).w.ledger ≠ [] :=
-  ⟨toy, g0, [.read ([none] : List (Option (List Nat)))], by decide⟩
+/-- every failure of `read`: garbled / missing / unreadable / sequence-less first file; garbled / missing /
+unreadable / bad-letters / other-alphabet later file; nothing but empty files — the outputs … -/
+def failingReads : List (Op toy) :=
+  [ .read ([.garbled] : List ToyFile),
+    .read ([.missing] : List ToyFile),
+    .read ([.badLetters] : List ToyFile),
+    .read ([.ok []] : List ToyFile),
+    .read ([.unreadable] : List ToyFile),
+    .read ([.ok [1, 2], .unreadable, .ok [3]] : List ToyFile),
+    .read ([.ok [1, 2], .garbled] : List ToyFile),
+    .read ([.ok [1, 2], .missing, .ok [3]] : List ToyFile),
+    .read ([.ok [1, 2], .badLetters] : List ToyFile),
+    .read ([.ok [1, 2], .ok [4]] : List ToyFile),
+    .read ([.empty, .empty] : List ToyFile),
+    .read ([.ok [1], .empty, .ok [3]] : List ToyFile) ]
 
-example : (after toy (State.init toy g0) [.read ([none] : List (Option (List Nat))), .read ([some [1, 2], none] : List (Option (List Nat)))]).w.ledger
-    = [.tmp "in_buffer", .tmp "in_buffer"] := by decide
+example : (run toy (State.init toy g0) failingReads).1 =
+    [.fail, .fail, .fail, .fail, .fail, .fail, .fail, .fail, .fail, .fail, .noInput, .handle 0] := rfl
+
+/-- … and nothing but the one object that was handed out remains allocated -/
+example : (after toy (State.init toy g0) failingReads).w.ledger = [.obj 0] := by decide
+
+/-- `ledger_balanced` on this history, and the pre-repair call on the toy's unreadable file -/
+example : (after toy (after toy (State.init toy g0) failingReads)
+    (freeAll toy (after toy (State.init toy g0) failingReads).handles)).w.ledger = [] :=
+  (ledger_balanced toy g0 failingReads).1
+
+example : (readInputPre4c3a0a7 toy 0 ToyFile.unreadable none ⟨g0, []⟩).2.ledger = [.tmp "in_buffer"] := by decide
+example : (readInput toy 0 ToyFile.unreadable none ⟨g0, []⟩).2.ledger = [] := by decide
 
 end Examples
 
